@@ -42,7 +42,7 @@ def strat_rows(tier):
     vals = lambda lo, hi: gen.prof_rough(lo, hi)
     return st.builds(lambda g, n, nt, ll, lt, along, rough, s_r, s_s, v, fl, k, tl, tr, tt: dict(
         gamma=g, n=n, nt=nt, ll=ll, lt=lt, along=along, state=(s_r if rough else s_s), v=v, flux=fl, k=(None if rough else k), bcl=tl, bcr=tr, bct=tt),
-        gen.GAMMAS, st.integers(2, nmax), st.integers(1, 6), gen.logf(-1, 1), gen.logf(-1, 1), st.sampled_from(["x", "y"]), st.booleans(),
+        gen.GAMMAS, st.integers(2, nmax), st.integers(1, 6), st.one_of(gen.logf(-1, 1), gen.logf(-9, 4)), st.one_of(gen.logf(-1, 1), gen.logf(-9, 4)), st.sampled_from(["x", "y"]), st.booleans(),
         gen.state_euler(True, lnrange=1.0, machmax=2.0), gen.state_euler(False, lnrange=0.7, machmax=1.5, smooth_amp=0.05),
         st.one_of(st.just(0.0), st.just(0.0), gen.f(-1.5, 1.5)), st.sampled_from(["centered", "hlle"]),
         st.one_of(st.none(), gen.f(-1, 1), st.sampled_from([-1.0, 0.0, 1.0 / 3.0, 1.0])), st.sampled_from(LR_ALL), st.sampled_from(LR_ALL), st.sampled_from(["per", "sym"]))
@@ -136,7 +136,7 @@ def strat_sym(tier):
     tag = st.sampled_from(TAGS)
     return st.builds(lambda g, nx, ny, lx, ly, rough, num, s_r, s_s, fl, tl, tr, tb, tt, mp: dict(
         gamma=g, nx=nx, ny=ny, lx=lx, ly=ly, num=(dict(name="extrapol2d1") if rough else num), state=(s_r if rough else s_s), flux=fl, left=tl, right=tr, bottom=tb, top=tt, map=mp),
-        gen.GAMMAS, st.integers(1, nmax), st.integers(1, nmax), gen.logf(-1, 1), gen.logf(-1, 1), st.booleans(), gen.num2d_any(),
+        gen.GAMMAS, st.integers(1, nmax), st.integers(1, nmax), st.one_of(gen.logf(-1, 1), gen.logf(-9, 4)), st.one_of(gen.logf(-1, 1), gen.logf(-9, 4)), st.booleans(), gen.num2d_any(),
         gen.state_euler2d(True, lnrange=1.0, machmax=2.0), gen.state_euler2d(False, lnrange=0.7, machmax=1.5, smooth_amp=0.05),
         st.sampled_from(["centered", "hlle"]), tag, tag, tag, tag, st.sampled_from(["transpose", "reflect-x", "reflect-y"]))
 
